@@ -17,6 +17,7 @@ import (
 	"github.com/syndtr/goleveldb/leveldb/storage"
 	"github.com/syndtr/goleveldb/leveldb/util"
 	"verifharness/lib/vlib"
+	"verifharness/lib/vstor"
 )
 
 // ---- DB-level programs ----
@@ -409,6 +410,7 @@ type dbExec struct {
 	c          *dbCase
 	cmp        comparer.Comparer
 	stor       storage.Storage
+	vs         *vstor.Stor // = stor: the checker-owned storage (file bytes for the byte-level cases, read faults)
 	db         *leveldb.DB
 	model      map[string][]byte
 	snaps      map[int]*leveldb.Snapshot
@@ -429,6 +431,11 @@ type dbExec struct {
 	failCall int
 	curOp    int
 	walkFail bool // the failure is a disagreement of a movement call (shrinkable)
+	// byte-level (K) groups (bytes.go)
+	bcases *[]string
+	bmax   int
+	bgrp   *byteGroup
+	btr    *byteGroup
 }
 
 func copyMap(m map[string][]byte) map[string][]byte {
@@ -562,7 +569,8 @@ func (x *dbExec) settleAlways() {
 // run executes the program; returns false when a violation was recorded
 func (x *dbExec) run() (ok bool) {
 	ok = true
-	x.stor = storage.NewMemStorage()
+	x.vs = vstor.New(false)
+	x.stor = x.vs
 	x.model = map[string][]byte{}
 	x.snaps = map[int]*leveldb.Snapshot{}
 	x.smodel = map[int]map[string][]byte{}
@@ -574,6 +582,9 @@ func (x *dbExec) run() (ok bool) {
 	defer func() {
 		for _, is := range x.iters {
 			x.emitK(is)
+		}
+		x.emitBytes()
+		for _, is := range x.iters {
 			is.it.Release()
 		}
 		for _, s := range x.snaps {
@@ -747,6 +758,10 @@ func (x *dbExec) iterNew(o op) bool {
 	var m map[string][]byte
 	var raw []leveldb.VerifRawEntry
 	var err error
+	keyBefore := ""
+	if x.bmax > 0 && x.c.Settled {
+		keyBefore, _, _, _ = x.stateKey()
+	}
 	switch {
 	case o.View == "db":
 		m = x.model
@@ -783,6 +798,7 @@ func (x *dbExec) iterNew(o op) bool {
 	is.cur = newCursor(is.exp, x.cmp)
 	is.raw = toRaw(raw)
 	x.iters[o.ID] = is
+	x.byteCapture(is, strings.SplitN(o.View, ":", 2)[0], keyBefore)
 	// second oracle: the raw entries must already amount to the same pairs
 	lr, heads := liveFromRaw(is.raw, is.seq, x.cmp, o.Start, o.Limit)
 	is.heads = heads
@@ -949,14 +965,22 @@ func (x *dbExec) emitK(is *iterState) {
 	x.res.Count("k_dbiter_cases", 1)
 }
 
-func execDB(c *dbCase, res *vlib.Result, label string, kcases *[]string, kmax, kmoves int, limit time.Duration) (x *dbExec, hung bool, pan interface{}) {
+type kbytesOut struct {
+	cases *[]string
+	max   int // max bytes of a dumped state; 0 = no byte-level cases
+}
+
+func execDB(c *dbCase, res *vlib.Result, label string, kcases *[]string, kmax, kmoves int, limit time.Duration, kb *kbytesOut) (x *dbExec, hung bool, pan interface{}) {
 	x = &dbExec{c: c, cmp: vlib.ComparerByID(c.Cid), res: res, kcases: kcases, kmax: kmax, kmoves: kmoves, label: label, failCall: -1}
+	if kb != nil {
+		x.bcases, x.bmax = kb.cases, kb.max
+	}
 	hung, pan = runGuarded(limit, func() { x.run() })
 	return
 }
 
-func runDBCase(c *dbCase, res *vlib.Result, label string, kcases *[]string, kmax, kmoves int) (ok bool, walks, nontrivial int) {
-	x, hung, pan := execDB(c, res, label, kcases, kmax, kmoves, 300*time.Second)
+func runDBCase(c *dbCase, res *vlib.Result, label string, kcases *[]string, kmax, kmoves int, kb *kbytesOut) (ok bool, walks, nontrivial int) {
+	x, hung, pan := execDB(c, res, label, kcases, kmax, kmoves, 300*time.Second, kb)
 	if hung {
 		res.Violate(fmt.Sprintf("DB program (%s): did not finish within 300s", label), c)
 		return false, x.walks, x.nontrivial
@@ -986,7 +1010,7 @@ func shrinkDB(c *dbCase, failOp, failCall int, label string) (*dbCase, string) {
 	try := func(ops []op) (bool, string) {
 		cand := *c
 		cand.Ops = ops
-		x, hung, pan := execDB(&cand, scratch, label, nil, 0, 0, 20*time.Second)
+		x, hung, pan := execDB(&cand, scratch, label, nil, 0, 0, 20*time.Second, nil)
 		return !hung && pan == nil && x.vdesc != "" && x.walkFail, x.vdesc
 	}
 	cur := append([]op{}, c.Ops[:failOp+1]...)
